@@ -1809,7 +1809,7 @@ fn gen_race(g: &mut Gen) {
 }
 
 // ---------------------------------------------------------------------------------------------
-// tokio-share: consecutive calls that share ONE InterruptibilityState through `reborrow()`; the first
+// share: consecutive calls that share ONE InterruptibilityState through `reborrow()`; the first
 // receives the signal, the later ones start on an already interrupted state (monitors only)
 // ---------------------------------------------------------------------------------------------
 
@@ -1869,6 +1869,6 @@ fn gen_share(g: &mut Gen) {
             }
             runs.push(Run::Call(cfg, evs));
         }
-        g.emit("tokio-share", &ops, Body::H(runs));
+        g.emit("share", &ops, Body::H(runs));
     }
 }
